@@ -299,6 +299,24 @@ def rule_accum(ctx, rid='C14.accum', modules=None, least=4):
     ctx.require(n >= least, rid, f'only {n} loop-carried sums found')
 
 
+def rule_scale(ctx):
+    ctx.rule('C14.keys', 'scale and tuning objects given in an event reach the pitch chain unchanged: Scale keeps a Tuning instance '
+                         '(octave ratio, name), and the event call protocol wraps only plain tuples as arrayed parameters')
+    sc = ctx.repo.cls('sc3.seq.scale:Scale')
+    i = sc.methods['__init__']
+    src = full(i.node)
+    rewrap = [norm(x) for x in walk_local(i.node) if isinstance(x, ast.Assign) and norm(x.value) == 'Tuning(tuning)']
+    guarded = all(any(isinstance(p_, ast.If) and 'isinstance(tuning, Tuning)' in norm(p_.test) for p_ in U.parent_chain(x))
+                  for x in walk_local(i.node) if isinstance(x, ast.Assign) and norm(x.value) == 'Tuning(tuning)')
+    ctx.ob('C14.keys', f'{i.fq}:keeps-tuning', bool(rewrap) and guarded,
+           'Tuning(tuning) on a Tuning instance resets the octave ratio to 2.0 and drops the name: it may only wrap a plain sequence', i.node, i.module)
+    ed = ctx.repo.cls('sc3.seq.event:EventDict')
+    c = ed.methods['__call__']
+    tests = [norm(x.test) for x in walk_local(c.node) if isinstance(x, ast.If) and 'tuple' in norm(x.test)]
+    ctx.ob('C14.keys', f'{c.fq}:plain-tuples-only', tests == ['type(value) is tuple'],
+           f'arrayed_param must wrap plain tuples only (found tests {tests}): Scale and Tuning are tuple subclasses and lose their methods', c.node, c.module)
+
+
 def rule_par(ctx):
     ctx.rule('C14.par', 'Ppar keeps a local clock: after every event it yields, `now` advances to exactly the time whose distance from '
                         '`now` was emitted as that event\'s delta, and that time was read from the queue in the same block')
@@ -322,12 +340,22 @@ def rule_par(ctx):
             n += 1
             # the emitted delta: nearest earlier statement of the block that sets it
             target = None
+            def delta_target(stmt):
+                t = norm(stmt)
+                mm = re.fullmatch(r"outevent\['delta'\] = (?:evt\.Rest\()?(\w+) - now\)?(?: #.*)?", t) or \
+                    re.fullmatch(r"outevent\['delta'\] = (\w+)", t) or \
+                    re.fullmatch(r'outevent = evt\.silent\((\w+) - now, \w+\)', t) or re.fullmatch(r'outevent = evt\.silent\((\w+), \w+\)', t)
+                return mm.group(1) if mm else None
             for prev in reversed(b[:i]):
-                t = norm(prev)
-                mm = re.fullmatch(r"outevent\['delta'\] = (\w+) - now", t) or re.fullmatch(r'outevent = evt\.silent\((\w+) - now, \w+\)', t) \
-                    or re.fullmatch(r'outevent = evt\.silent\((\w+), \w+\)', t)
-                if mm:
-                    target = mm.group(1)
+                if isinstance(prev, ast.If):
+                    ts = {delta_target(x) for br in (prev.body, prev.orelse) for x in br}
+                    if len(ts) == 1 and None not in ts:
+                        target = ts.pop()
+                        break
+                    continue
+                tg = delta_target(prev)
+                if tg:
+                    target = tg
                     break
             nxt = norm(b[i + 1]) if i + 1 < len(b) else None
             fresh = target is not None and any(isinstance(p_, ast.Assign) and norm(p_.targets[0]) == target and 'queue.peek()[0]' in norm(p_.value)
@@ -343,10 +371,31 @@ def rule_par(ctx):
     src = full(f.node)
     ctx.ob('C14.par', f'{f.fq}:requeue', "queue.add(now + float(outevent('delta')), stream)" in src,
            'a child is re-queued at the local time plus its own delta', f.node, m)
+    # the gaps Ppar bridges are differences of queue times, i.e. already stretched: silent() multiplies by the in-event's stretch,
+    # so the delta of each bridging rest is set to the gap itself afterwards
+    sil = [x for x in walk_local_ordered(f.node) if isinstance(x, ast.Assign) and norm(x.value).startswith('evt.silent(')]
+    ok = bool(sil)
+    for x in sil:
+        gap = norm(x.value.args[0])
+        blk = next(bb for bb in blocks(f.node) if x in bb)
+        nxt = blk[blk.index(x) + 1] if blk.index(x) + 1 < len(blk) else None
+        ok = ok and nxt is not None and norm(nxt) == f"outevent['delta'] = {gap}"
+    ctx.ob('C14.par', f'{f.fq}:bridging-rest-not-restretched', ok,
+           'after outevent = evt.silent(gap, inevent) the delta must be reset to the gap: silent() applies the in-event\'s stretch to a gap '
+           'that is already measured in stretched time', f.node, m)
+    # a child event that is a rest through its delta key stays a rest when Ppar rewrites the delta
+    ok = "if isinstance(outevent('delta'), evt.Rest): outevent['delta'] = evt.Rest(nexttime - now) else: outevent['delta'] = nexttime - now" in src
+    ctx.ob('C14.par', f'{f.fq}:rest-delta-kept', ok, 'rewriting the delta of a child event keeps a Rest a Rest (otherwise the rest is played)', f.node, m)
+    # Pdur reads keys with the event call protocol: what the source stream yields is converted first (a Pbind over a dict proto yields dicts)
+    pd = ctx.repo.func('sc3.seq.patterns.filterpatterns:Pdur.__embed__')
+    srcd = full(pd.node)
+    ok = U.before(srcd, 'inevent = evt.event(stream.next(inevent))', "delta = inevent('delta')")
+    ctx.ob('C14.par', f'{pd.fq}:as-event', ok, 'Pdur converts the yielded value to an event before calling it for its delta (as Ppar does)', pd.node, pd.module)
 
 
 def run(ctx):
     rule_accum(ctx)
+    rule_scale(ctx)
     rule_par(ctx)
     rule_note(ctx)
     rule_keys(ctx)
@@ -356,6 +405,16 @@ def run(ctx):
 
 
 MUTANTS = [
+    dict(rule='C14.keys', name='(fix reverted) Scale re-wraps its Tuning', file='sc3/seq/scale.py',
+         old="        elif not isinstance(tuning, Tuning):\n            tuning = Tuning(tuning)", new="        else:\n            tuning = Tuning(tuning)"),
+    dict(rule='C14.keys', name='(fix reverted) every tuple value becomes an arrayed parameter', file='sc3/seq/event.py',
+         old="            elif type(value) is tuple:  # Not Scale or other subclasses.", new="            elif isinstance(value, tuple):"),
+    dict(rule='C14.par', name='(fix reverted) Pdur calls a plain dict for its delta', file='sc3/seq/patterns/filterpatterns.py',
+         old="                inevent = evt.event(stream.next(inevent))  # as_event", new="                inevent = stream.next(inevent)"),
+    dict(rule='C14.par', name='(fix reverted) bridging rest stretched twice', file='sc3/seq/patterns/eventpatterns.py',
+         old="                    outevent['delta'] = nexttime - now  # Already stretched.\n", new=""),
+    dict(rule='C14.par', name='(fix reverted) Ppar turns a rest delta into a number', file='sc3/seq/patterns/eventpatterns.py',
+         old="                if isinstance(outevent('delta'), evt.Rest):\n                    outevent['delta'] = evt.Rest(nexttime - now)  # Still a rest.\n                else:\n                    outevent['delta'] = nexttime - now\n", new="                outevent['delta'] = nexttime - now\n"),
     dict(rule='C14.par', name='Ppar bridging rest leaves the local clock behind (seed C14-c)', file='sc3/seq/patterns/eventpatterns.py',
          old="                    nexttime = queue.peek()[0]\n                    outevent = evt.silent(nexttime - now, inevent)", new="                    outevent = evt.silent(queue.peek()[0] - now, inevent)"),
     dict(rule='C14.par', name='Ppar does not advance its clock after a child event', file='sc3/seq/patterns/eventpatterns.py',
